@@ -228,6 +228,10 @@ def bridged_cys(ctx):
     ss = pdbgen.text(pdbgen.ss_fragment())
     for args in ([], ["--titrate_only", "E:42,E:57"], ["--titrate_only", "E:42,E:58"], ["--protonate-all"], ["-k"], ["-d"], ["-c", "E"]):
         runs.append(("ss-bridge %s" % " ".join(args), ss, args))
+    # the symmetric disulfide of a homodimer: equal residue names and numbers in two chains
+    hd = pdbgen.homodimer_ss(ctx.rng)
+    if hd is not None:
+        runs.append(("homodimer-ss", pdbgen.text(hd), []))
     for name, text, args in runs:
         o = observe.run(text, args, want_text=False)
         if o.error:
